@@ -27,11 +27,14 @@
 
 /* backend ids (wire values) */
 #define REF_BE_NULL 0
+#define REF_BE_JER_VAND 1
+#define REF_BE_JER_CAUCHY 2
 #define REF_BE_XOR 3
 #define REF_BE_ISAL_VAND 4
 #define REF_BE_SHSS 5
 #define REF_BE_RSVAND 6
 #define REF_BE_ISAL_CAUCHY 7
+#define REF_BE_PHAZR 8
 #define REF_CT_NONE 1
 #define REF_CT_CRC32 2
 
@@ -54,6 +57,19 @@ void isal_vand_generator(int k, int m, uint8_t *g /* (k+m)*k */);
 void isal_cauchy_generator(int k, int m, uint8_t *g);
 void gf8_model_parity(const uint8_t *g, int k, const uint8_t *const *data, size_t len, int r, uint8_t *out);
 int gf8_rank(const uint8_t *mat, int k, const int *rows, int nrows);
+
+/* ---- GF(2^w), w in {4,8,16,32}: shift-and-xor with the polynomials 0x13, 0x11d, 0x1100b, 0x100400007 (the fields the
+ *      stand-in libJerasure documents); 0 for other w ---- */
+int gfw_ok(int w);
+uint32_t gfw_mul(uint32_t a, uint32_t b, int w);
+uint32_t gfw_inv(uint32_t a, int w);
+/* documented coding matrices of the stand-in: vand 1/((k+i)^j), cauchy 1/(i^(m+j)); i = parity row 0..m-1 */
+uint32_t jer_coeff(int cauchy, int k, int m, int w, int i, int j);
+/* parity r (k<=r<k+m) of the word code (little-endian w-bit words, w in {8,16,32}) */
+void jer_vand_model_parity(int k, int m, int w, const uint8_t *const *data, size_t len, int r, uint8_t *out);
+/* parity r of the bit-matrix code: every fragment is a sequence of stretches of w packets of `packet` bytes; parity packet a
+ * of a stretch = xor over (j, b) with bit a of (coeff(i,j) * 2^b) set of data packet b of fragment j */
+void jer_cauchy_model_parity(int k, int m, int w, int packet, const uint8_t *const *data, size_t len, int r, uint8_t *out);
 
 /* ---- flat XOR: golden equations ---- */
 typedef struct { int k, m, hd; const uint32_t *parity_bms; const uint32_t *data_bms; } xor_table_t;
@@ -78,7 +94,8 @@ uint32_t crc_legacy(const uint8_t *p, size_t n);   /* historical sign-extending 
 /* word size in bytes for the alignment unit: rs_vand 2, xor 4, null 4, isa-l 1 */
 extern int ref_isal_word_bits;
 int ref_word_bytes(int backend);
-int ref_backend_metadata_bytes(int backend);   /* per-fragment trailer owned by the backend (shss: 32), 0 otherwise */
+extern int ref_phazr_hd;                         /* the hd argument of the libphazr configuration being modelled (<= 0: 1) */
+uint64_t ref_backend_metadata_bytes(int backend, uint64_t payload);   /* per-fragment tail owned by the backend: shss 32; libphazr ceil(P/(w/8-hd))*(w/8)-P; 0 otherwise */
 uint64_t ref_aligned_size(int backend, int k, uint64_t len);
 uint64_t ref_payload_size(int backend, int k, uint64_t len);
 
